@@ -202,3 +202,21 @@ def cast_to_own_or_promoted_dtype(coordinates, forces):
     a = np.array(forces, dtype=np.result_type(forces.dtype, np.float32))
     b = np.asarray(forces, dtype=forces.dtype)
     return a, b, np.asarray(coordinates[0], dtype="float64")
+
+
+def best_by_truthiness(candidates, target):
+    best_score, best = None, None
+    for c in candidates:
+        score = abs(c - target)
+        if not best_score or score < best_score:
+            best_score, best = score, c
+    return best
+
+
+def best_by_is_none(candidates, target):
+    best_score, best = None, None
+    for c in candidates:
+        score = abs(c - target)
+        if best_score is None or score < best_score:
+            best_score, best = score, c
+    return best
